@@ -856,6 +856,25 @@ func c08CheckDashDash(res *Result, doc []c08Opt) {
 	res.Evaluations += len(tails)
 }
 
+// an abbreviation that fits two documented long names is an error, whatever follows it
+func c08CheckAmbiguous(res *Result, doc []c08Opt) {
+	for _, p := range c08AmbiguousPrefixes(doc) {
+		for _, argv := range [][]string{{"pkglint", "--" + p}, {"pkglint", "--" + p + "=on", "dir"}, {"pkglint", "dir", "--" + p, "x"}} {
+			r := pkglint.VerifParseCommandLine(argv)
+			res.Count("law.ambiguous_prefix_rejected", 1)
+			if r.Exit != 1 || !strings.Contains(r.Stderr, "ambiguous") {
+				first, _, _ := strings.Cut(r.Stderr, "\n")
+				res.AddViolation(Violation{
+					Key:        "C08/spelling/ambiguous_prefix_rejected",
+					What:       fmt.Sprintf("--%s abbreviates two documented options but %q is not rejected as ambiguous: exit %d %q", p, argv, r.Exit, first),
+					FoundInput: true, Size: c08ArgvSize(argv),
+					Replay:     map[string]any{"kind": "ambiguous", "a": c08HexArgv(argv)},
+				})
+			}
+		}
+	}
+}
+
 // ---------- 5. whole runs ----------
 
 // the extra Makefile lines of the generated packages; each variant triggers
@@ -1288,6 +1307,8 @@ func runC08(ctx *Ctx) *Result {
 	pairs := c08LawPairs(doc)
 	c08CheckLawPairs(res, pairs)
 	c08CheckDashDash(res, doc)
+	c08CheckAmbiguous(res, doc)
+	c08Floor(res, "law.ambiguous_prefix_rejected", 6)
 	for _, l := range []string{"long_eq_short", "unique_prefix_eq_long", "cluster_eq_separate", "eq_arg_eq_next_arg", "group_comma_eq_repeat", "after_dashdash_are_args"} {
 		c08Floor(res, "law."+l, 10)
 	}
@@ -1398,6 +1419,13 @@ func replayC08(ctx *Ctx, rep map[string]any) *Result {
 			return res
 		}
 		c08CheckDashDash(res, doc)
+	case "ambiguous":
+		doc, err := c08FetchTable(ctx, "doc")
+		if err != nil {
+			res.Broken = err.Error()
+			return res
+		}
+		c08CheckAmbiguous(res, doc)
 	case "runpair":
 		c08CheckRunPair(ctx, res, dir, variant, c08LawPair{law, c08UnhexArgv(rep["a"]), c08UnhexArgv(rep["b"])})
 	case "runpres":
